@@ -13,6 +13,7 @@ package main
 
 import (
 	"context"
+	"encoding/json"
 	"fmt"
 	"sort"
 	"strings"
@@ -86,6 +87,14 @@ func (e *c08Env) cached() []kemtypes.ObjectAndFilterResult {
 func frText(o *kemtypes.ObjectAndFilterResult) string {
 	if o.Metadata.JqFilter == "" {
 		return "-"
+	}
+	if s, ok := o.FilterResult.(string); ok {
+		// the stored filter result is the jq output as JSON text
+		var v any
+		if err := json.Unmarshal([]byte(s), &v); err != nil {
+			return "not-json-text"
+		}
+		return canonJSON(v)
 	}
 	return canonJSON(o.FilterResult)
 }
@@ -209,7 +218,7 @@ func (e *c08Env) jqProbe(obj map[string]any) string {
 	res, err := kem.VerifApplyFilterC08(e.jq, &unstructured.Unstructured{Object: deepCopyJSON(obj)})
 	ans := "err"
 	if err == nil {
-		ans = "fr=" + canonJSON(res.FilterResult)
+		ans = "fr=" + frText(res)
 	}
 	e.c.Op("jq "+canonJSON(obj), ans)
 	e.c.Note("jq-result:" + resultClass(strings.TrimPrefix(ans, "fr=")))
